@@ -141,6 +141,54 @@ def check_case(case):
     return res
 
 
+def check_tuple_targets(case):
+    """A statement that assigns several variables at once ('A,B = e1,e2'): every left-hand-side term is a node carrying
+    the statement's normalised equation, and every right-hand-side term has an edge into every one of them."""
+    targets = case['targets']
+    exprs = case['exprs']
+    res = Result(nontrivial=True, classes=['tuple-targets'])
+    lhs = ','.join(targets)
+    rhs = ','.join(G.render_expr(e, G.Tape([]), depth=0) for e in exprs)
+    text = f'{lhs} = {rhs}'
+    parsed = attempt(fsic.parse_model, text)
+    if not parsed.ok:
+        res.tag('skipped:parse-rejected')
+        return res
+    g = attempt(symbols_to_graph, parsed.value)
+    if not g.ok:
+        res.fail(f'graph-raised/{g.exc_name}/tuple-targets', f'{text!r}: {g!r}')
+        return res
+    graph = g.value
+    reads = set()
+    for e in exprs:
+        for n in G.walk(e):
+            if n[0] == 'var' and G.idx_offset(n[3]) is not None:
+                reads.add(fmt(n[1], G.idx_offset(n[3])))
+    by_name = {s.name: s for s in parsed.value}
+    for tname in targets:
+        node = fmt(tname, 0)
+        if node not in graph or 'equation' not in graph.nodes[node]:
+            res.fail('static/equation-nodes/tuple-targets', f'{text!r}: no node with an equation for {node}')
+            continue
+        if graph.nodes[node]['equation'] != by_name[tname].equation:
+            res.fail('static/equation-attribute/tuple-targets', f'{text!r}: node {node} carries {graph.nodes[node]["equation"]!r}')
+        preds = {p for p in graph.predecessors(node) if VARLIKE.match(p)}
+        if preds != reads:
+            res.fail('static/' + ('missing-edge' if reads - preds else 'extra-edge') + '/tuple-targets',
+                     f'{text!r}: edges into {node} from {sorted(preds)}, the statement reads {sorted(reads)}')
+    return res
+
+
+def strat_tuple_targets():
+    from hypothesis import strategies as st
+    leaf = st.tuples(st.sampled_from(['X', 'Z', 'W']), st.sampled_from([None, -1, 1, -2])).map(lambda x: ['var', x[0], 'v', x[1]])
+    expr = st.recursive(st.one_of(leaf, st.just(['num', '2'])),
+                        lambda ch: st.tuples(st.just('bin'), st.sampled_from(['+', '*', '-']), ch, ch).map(list), max_leaves=3)
+    return st.integers(2, 3).flatmap(lambda k: st.fixed_dictionaries({
+        'targets': st.permutations(['A', 'B', 'C']).map(lambda p: list(p)[:k]),
+        'exprs': st.lists(expr, min_size=k, max_size=k)}))
+
+
 def strategy():
     from hypothesis import strategies as st
     return st.fixed_dictionaries({
@@ -166,4 +214,5 @@ def phases(tier):
     return [
         Phase('enumerated', check_case, gen=gen_enumerated(3 if quick else 4), exhaustive=True),
         Phase('random', check_case, strategy=strategy, examples=4000 if quick else 30000),
+        Phase('tuple-targets', check_tuple_targets, strategy=strat_tuple_targets, examples=300 if quick else 5000),
     ]
